@@ -1,0 +1,37 @@
+//go:build verif
+
+// Contracts for package grpcjson (grpc/json ammo provider), checked by /verif/govc. Comment-only: no code.
+package grpcjson
+
+// A line is decoded into the pooled ammo it was given; on a malformed line that same ammo comes back with the error.
+//@ func decodeAmmo
+//@ props C13 C20 C08
+//@ nilsafe
+//@ requires am != nil
+//@ modifies am.Tag, am.Call, am.Metadata, am.Payload, am.id, am.isInvalid
+//@ ensures [the-given-ammo-comes-back] result0 == am
+//@ ensures [malformed-line-is-an-error] iff(result1 != nil, result_of(jsoniter.Unmarshal, 0) != nil)
+//@ at call am.Reset assert [fields-as-written] arg(tag) == ammo.Tag && arg(call) == ammo.Call && arg(metadata) == ammo.Metadata && arg(payload) == ammo.Payload
+//@ at call jsoniter.Unmarshal assert [the-whole-line] arg(a0) == jsonDoc0
+
+// Passes over the file: every chosen entry is sent once, in file order; exactly min(limit, passes x entries) are sent; a reached
+// bound ends the run without error; cancellation is noticed in every pass and at every entry.
+//@ func (p *Provider) start
+//@ props C08 C13 C20
+//@ nilsafe
+//@ env pooltype(p.Pool, *ammo.Ammo)
+//@ requires ammoFile != nil && p.Sink != nil && ctx != nil
+//@ ghost sent0 = sent(p.Sink)
+//@ loop 0 invariant [delivered-count] ammoNum == sent(p.Sink) - sent0 && ammoNum >= 0 && passNum >= 0 && imp(p.Limit > 0, ammoNum <= p.Limit)
+//@ loop 0 invariant [no-malformed-line-so-far-unless-continue-on-error] imp(calls(decodeAmmo) > 0 && !p.Config.ContinueOnError, result_of(decodeAmmo, 1) == nil)
+//@ loop 1 invariant [no-malformed-line-so-far-unless-continue-on-error] imp(calls(decodeAmmo) > 0 && !p.Config.ContinueOnError, result_of(decodeAmmo, 1) == nil)
+//@ loop 0 step [cancellation-is-noticed-in-every-pass] !iter(done(ctx))
+//@ loop 0 step [a-reached-limit-ends-the-run] imp(p.Limit > 0, ammoNum < p.Limit)
+//@ loop 0 step [a-reached-pass-bound-ends-the-run] imp(p.Passes > 0, passNum < p.Passes) && passNum == iter(passNum) + 1
+//@ loop 1 invariant [delivered-count] ammoNum == sent(p.Sink) - sent0 && ammoNum >= 0 && imp(p.Limit > 0, ammoNum <= p.Limit) && scanner != nil
+//@ loop 1 step [after-cancellation-no-entry-is-passed-over-silently] imp(iter(done(ctx)), sent(p.Sink) == iter(sent(p.Sink)) + 1)
+//@ loop 1 step [chosen-entry-is-sent-others-are-skipped] sent(p.Sink) - iter(sent(p.Sink)) == ite(confutil.IsChosenCase(a.Tag, p.Config.ChosenCases), 1, 0)
+//@ at send p.Sink assert [the-entry-just-decoded] value == result_of(decodeAmmo, 0)
+//@ at call a.Invalidate assert [only-with-continue-on-error] p.Config.ContinueOnError && result_of(decodeAmmo, 1) != nil
+//@ ensures [malformed-line-fails-the-run-unless-continue-on-error] imp(calls(decodeAmmo) > 0 && result_of(decodeAmmo, 1) != nil && !p.Config.ContinueOnError, result != nil)
+//@ ensures [never-beyond-the-limit] imp(p.Limit > 0, sent(p.Sink) - sent0 <= p.Limit)
